@@ -29,6 +29,10 @@ func (fu *fetchUnit) reset(pc int32) {
 }
 
 func (fu *fetchUnit) cycle(app risc.Application, ctx *risc.Context, outBus *comp.SimpleBus[int32]) {
+	if fu.pc/4 >= int32(len(app.Instructions)) {
+		// Redirected to the end of the program: nothing left to fetch
+		fu.complete = true
+	}
 	if fu.complete {
 		return
 	}
